@@ -208,7 +208,13 @@ func runCtl(j Job) Outcome {
 	}
 	// systematic drain: stop, release everything, consume until closed
 	if !out.Unquiet && !terminated {
-		step("S")
+		// a failed targeter has already raised the stop condition: half of those runs are drained WITHOUT an
+		// explicit Stop call — the attack must end by itself
+		if c.TargeterErrors() > 0 && r.Intn(2) == 0 {
+			out.Stats["drain:without_stop_call_after_targeter_failure"]++
+		} else {
+			step("S")
+		}
 		paceAfterStop := 0
 		for guard := 0; guard < 10000 && !terminated && !out.Unquiet; guard++ {
 			switch {
@@ -349,9 +355,13 @@ func runStress(j Job) Outcome {
 	if r.Intn(3) == 0 {
 		failAfter = int64(r.Intn(j.Len + 1))
 	}
+	failNoTargets := r.Intn(2) == 0
 	tr := vegeta.Targeter(func(t *vegeta.Target) error {
 		n := atomic.AddInt64(&started, 1)
 		if failAfter >= 0 && n > failAfter {
+			if failNoTargets {
+				return vegeta.ErrNoTargets
+			}
 			return fmt.Errorf("verif: targeter failure")
 		}
 		t.Method, t.URL = "GET", "http://verif.invalid/"
@@ -429,6 +439,14 @@ func runStress(j Job) Outcome {
 		out.Findings = append(out.Findings, Finding{Kind: "attack_ended_early_or_late",
 			What:     "stress: no Stop call and no targeter failure, yet the number of results differs from the number of hits the pacer released before saying stop",
 			Expected: fmt.Sprint(limit), Observed: fmt.Sprint(len(got))})
+	}
+	if failAfter >= 0 && int64(len(got)) > failAfter+int64(j.Max)+64 {
+		// the failing hit raises the stop signal; after it the loop can only win the race against the signal
+		// while a worker is free (2^-64 for 64 wins in a row) and at most max-workers hits are in flight
+		out.Findings = append(out.Findings, Finding{Kind: "attack_does_not_end",
+			What:     "stress: the attack keeps releasing hits after the targeter has failed",
+			Expected: fmt.Sprintf("<= %d results (targeter fails from call %d on)", failAfter+int64(j.Max)+64, failAfter+1), Observed: fmt.Sprint(len(got)),
+			Key:      map[string]interface{}{"targeter_error_is_ErrNoTargets": failNoTargets}})
 	}
 	if !ok {
 		out.Findings = append(out.Findings, Finding{Kind: "results_not_exactly_started_hits",
